@@ -70,10 +70,22 @@ def generate(st):
         'col': sw.choice(['data', 'data', 'data', 'out']),
         'on_as_list': sw.random() < 0.6,
         'if_none_as_list': sw.random() < 0.4,
+        'bigkeys': sw.random() < 0.012,
+        'none_values': sw.random() < 0.2,       # a table may hold None as a genuine value
     }
+    if cfg['bigkeys']:
+        cfg['keys_int'] = True
+        cfg['n_days'] = min(cfg['n_days'], 3)
     pool = KEYPOOL_I if cfg['keys_int'] else KEYPOOL_S
 
     def keyset(maxn=5):
+        if cfg.get('bigkeys') and not two_keys:
+            N = g.choice([70, 100, 140])
+            if g.random() < 0.6:
+                L = g.choice([31, 32, 33, 63, 64, 64, 65])
+                a0 = g.randrange(0, N - L)
+                return [[k] for k in range(N) if not (a0 <= k < a0 + L)]
+            return [[k] for k in range(N)]
         if two_keys:
             n = g.choice([0, 1, 2, 3, 4, 6])
             allk = [[a, b] for a in pool[:3] for b in pool[3:6]]
@@ -102,7 +114,14 @@ def generate(st):
                     'col': g.choice([nm, nm, 'val']), 'keycols': kc}
         # values are distinct within a table, so no two rows of one call present f with the same arguments
         # and the ledger attributes every evaluation to one row
-        return {'kind': 'table', 'keys': ks, 'vals': g.sample([1, 2, 3, 4, 5, 10, 20, 30, 40], len(ks)),
+        if len(ks) > 9:
+            vals_ = list(range(100, 100 + len(ks)))
+            g.shuffle(vals_)
+        else:
+            vals_ = g.sample([1, 2, 3, 4, 5, 10, 20, 30, 40], len(ks))
+        if cfg.get('none_values') and vals_ and g.random() < 0.5:
+            vals_[g.randrange(len(vals_))] = None         # at most one None per table keeps the rows' arguments distinct
+        return {'kind': 'table', 'keys': ks, 'vals': vals_,
                 'col': g.choice([nm, nm, 'data', 'val']), 'keycols': list(on)}
 
     inputs = {nm: make_input(nm) for nm in names}
@@ -150,7 +169,9 @@ def generate(st):
                 if c == 'none':
                     e = None
                 elif c == 'past':
-                    e = today - datetime.timedelta(days=g.choice([2, 3, 30]), seconds=g.choice([0, 0, 3600]))
+                    e = today - datetime.timedelta(days=g.choice([1, 1, 2, 3, 30])) + datetime.timedelta(seconds=g.choice([0, 0, 3600, 43200, 86399]))
+                    if e >= today:
+                        e = today - datetime.timedelta(seconds=1)
                 elif c == 'future':
                     e = today + datetime.timedelta(days=g.choice([2, 3, 30]), seconds=g.choice([0, 0, 3600]))
                 else:
